@@ -29,8 +29,9 @@ AddLimit(k, n) == /\ present[k] /\ ret[k] > 0
                   /\ Settle(k, cnt[k], lmt[k] + n, ret[k] - 1)
 UsedOnce(k) == /\ present[k]
                /\ Settle(k, cnt[k] + 1, lmt[k], ret[k])
-RNext == \E k \in Keys : \/ (ret[k] < 2 /\ Create(k))
-                         \/ \E n \in 0..MaxUse : AddLimit(k, n)
+\* bounded (two creators at a time, two incarnations), for model checking the abstract repository alone
+RNext == \E k \in Keys : \/ (ret[k] < 2 /\ rec[k] < 2 /\ Create(k))
+                         \/ \E n \in 0..MaxUse : lmt[k] + n <= MaxUse /\ AddLimit(k, n)
                          \/ ((ret[k] > 0 \/ cnt[k] < lmt[k]) /\ cnt[k] < MaxUse /\ UsedOnce(k))
 RSpec == RInit /\ [][RNext]_rvars
 
